@@ -199,15 +199,24 @@ def ideal {α} (cfg : Cfg α) : List α := W cfg.reqs (answered cfg.reqs)
 
 def willClose {α} (cfg : Cfg α) : Bool := cfg.reqs.any Req.close
 
-/-! ### a canonical schedule for the driver (any schedule gives the same wire: theorem `c10_pipeline`) -/
+/-! ### what the driver executes: `run` itself, on an explicit action list, plus decidable end checks
 
-/-- run to quiescence: first the preferred actions (`pref`, from the K line — exercises different
-    interleavings and short writes), then round-robin over the connection's own actions -/
-def drain {α} (cfg : Cfg α) : Nat → St α → List Act → St α
-  | 0, s, _ => s
-  | f + 1, s, pref =>
-    let s1 := run cfg s pref
-    let s2 := run cfg s1 [.parse, .start, .flush 1000000000, .write none, .flush 1000000000, .finish]
-    if s2.next == cfg.reqs.length && s2.queue.isEmpty && s2.pending.isEmpty then s2 else drain cfg f s2 []
+`pipedrv` calls `run cfg init (pref ++ completion k)`: the schedule letters of the K line followed by k
+rounds of the connection's own actions, and prints a prediction only if `noExt`, `doneB` and
+`dropped = false` hold for that very run — the hypotheses of `c10_run_checked`
+(Properties/C10.lean), so every printed line is covered by the audited theorems about `run`. -/
+
+/-- one round of the connection's own actions (the kernel takes everything, the backlog is flushed) -/
+def round : List Act :=
+  [.parse, .start, .flush 1000000000, .write none, .flush 1000000000, .finish]
+
+def completion (k : Nat) : List Act := (List.replicate k round).flatten
+
+/-- no external close in an action list -/
+def noExt (acts : List Act) : Bool := acts.all (fun a => a != .extClose)
+
+/-- quiescent and nothing left in the write list -/
+def doneB {α} (cfg : Cfg α) (s : St α) : Bool :=
+  s.next == cfg.reqs.length && s.queue.isEmpty && s.pending.isEmpty
 
 end Pipeline
